@@ -103,6 +103,13 @@ _TOKEN_CONTRACT_TRUST = [
     'SymbolTable::{from, extend, is_disjoint}, PublicKeys::{extend, insert, insert_fallible}, BlockBuilder::build, proto_block_to_token_block, Block::print_source: assumed contracts on the real signatures (HashSet / iterator / fmt code)',
     'Vec::len() < usize::MAX for the block vectors (requires clauses named len): a Vec of non-zero-sized elements cannot reach usize::MAX elements',
 ]
+PROPS['C02']['units'].append({'template': 'token.rs', 'rlimit': 30, 'items': [
+    r'^token::Biscuit::(new_with_rng|new_with_key_pair|append_with_keypair|append_third_party_with_keypair|append|append_third_party|seal|to_vec|from_with_symbols)$',
+    r'^token::unverified::UnverifiedBiscuit::(append_with_keypair|append_third_party_with_keypair|append|append_third_party|seal|to_vec|verify)$',
+    r'^token::builder::biscuit::BiscuitBuilder::'], 'quick_canaries': ['authority-next-key-is-root', 'builder-keys-swapped', 'append-key-not-from-rng']})
+PROPS['C02']['proved'] += (' Token level (unit token): BiscuitBuilder::{build, build_with_symbols, build_with_rng, build_with_key_pair} and Biscuit::new_with_rng / new_with_key_pair return tokens whose container is chain-valid under the '
+    'public key of the root key pair they were given; append* / append_third_party* / seal on both token types keep chain validity of the tail (given a valid external signature) and put the designated next key in place.')
+PROPS['C02']['assumptions'] = PROPS['C02']['assumptions'] + ['unit token: see C12 (SymbolTable / PublicKeys primitives, BlockBuilder::build, prost round trip)', 'the random generator is an oracle (rng_keypair): no entropy claim']
 PROPS['C07']['units'].append({'template': 'token.rs', 'rlimit': 30, 'items': [
     r'^token::Biscuit::(append_third_party_with_keypair|third_party_request|block_external_key|external_public_keys)$',
     r'^token::unverified::UnverifiedBiscuit::(append_third_party_with_keypair|third_party_request|external_public_keys)$',
@@ -120,12 +127,12 @@ PROPS['C08']['proved'] += (' Token level: Biscuit::seal / UnverifiedBiscuit::sea
     'append, append_third_party, third_party_request and seal on a sealed token return an error.')
 PROPS['C08']['assumptions'] = CRYPTO_ASSUMPTIONS + _TOKEN_CONTRACT_TRUST
 PROPS['C15']['units'].append({'template': 'token.rs', 'rlimit': 30, 'items': [
-    r'^token::Biscuit::(revocation_identifiers|seal|append_with_keypair|append_third_party_with_keypair|append|append_third_party)$',
+    r'^token::Biscuit::(revocation_identifiers|seal|append_with_keypair|append_third_party_with_keypair|append|append_third_party|new_with_rng|new_with_key_pair)$', r'^token::builder::biscuit::BiscuitBuilder::',
     r'^token::unverified::UnverifiedBiscuit::(revocation_identifiers|seal|append_with_keypair|append_third_party_with_keypair|verify|append|append_third_party)$']})
 PROPS['C15']['proved'] += (' Token level: revocation_identifiers() is exactly [authority signature] ++ block signatures, in order, on both token types; every append / seal / verify '
     'keeps the existing container blocks as a prefix (appended / frame clauses). Next keys: append_with_keypair / append_third_party_with_keypair (both token types) put the public key of the GIVEN key pair in the new block '
     'and keep its private key as the proof; append / append_third_party (both token types) obtain that key pair from the operating-system RNG (KeyPair::new_with_rng(Ed25519, OsRng), an oracle) and from nowhere else.')
-PROPS['C15']['not_covered'] = PROPS['C15']['not_covered'] + ['the next key of the authority block (BiscuitBuilder::build_with_rng, builder code outside the units)']
+PROPS['C15']['proved'] += ' New tokens: Biscuit::new_with_rng and BiscuitBuilder::{build, build_with_symbols, build_with_rng, build_with_key_pair} sign the authority block with the root key, put the key pair obtained from the given generator (the OS generator for build / build_with_symbols) - or the given next key pair - in the authority block and keep its private key as the proof; the root key is never used as a next key.'
 PROPS['C15']['assumptions'] = CRYPTO_ASSUMPTIONS + _TOKEN_CONTRACT_TRUST
 
 PROPS['C09'] = {
